@@ -36,7 +36,8 @@ CHECKS = {
              "threshold, 32-bit store) and of the croo accessor pipeline (sort by time descending, NaN-absorbing cumsum, "
              "argmax, + latest value): lroo equals the declaratively specified longest run (>= 2, else 0) without "
              "wrapping for every series shorter than 2^32; croo equals the run ending at the latest time stamp, is "
-             "invariant under every permutation of the stored steps, and croo <= max(lroo, 1). Tied to /repo by an exact "
+             "invariant under every permutation of the stored steps, and croo <= max(lroo, 1); lroo is unchanged by time reversal, the longest "
+             "run never shrinks when data is added on either side, and a value other than 1 separates runs (longest run of a ++ x :: b = max of the sides). Tied to /repo by an exact "
              "correspondence, exhaustive over all binary series <= 10 (16 thorough) and all stored orders <= 5 (6).",
         ref="7 (C18)",
         note="Trusted: Coq kernel + vm_compute; harness; xarray sortby/where/cumsum/argmax modelled by documented behaviour "
